@@ -6,6 +6,10 @@
   Model: Demeter/Deribit.lean (repaired code: /repo 4fb272a 1e18c04 sell checks the holding first, 409c53b
   negative deposits/withdrawals rejected).  Value = wallet(token) + exchange cash + Σ amount × round(mark), the
   valuation `get_market_balance` itself uses (C15_equity).  Exact arithmetic (`DCtx.exact`).
+
+  Finding D-8: the value theorems take `FrozenOK` (bids ≤ ROUND(mark) ≤ asks).  On the property's own raw quantifier
+  (`FrozenRaw`, bids ≤ mark ≤ asks) they hold under `MarkOnGrid` or `PricesOnGrid` (`…_ongrid_partial`, `…_pricegrid_partial`)
+  and fail without (`C03_deribit_fails_offgrid_mark`, `…_sell`); the non-negativity and over-redemption parts need neither.
 -/
 import Proofs.Lemmas.DeribitValue
 namespace Demeter
@@ -700,6 +704,81 @@ theorem frozenOK_of_raw {c : TokenCfg} {book : List Instr} (hf : FrozenRaw book)
   ⟨hf.inv, hf.mark_nonneg, fun i hi l hl => by rw [hg i hi]; exact hf.asks_ge i hi l hl,
     fun i hi l hl => by rw [hg i hi]; exact hf.bids_le i hi l hl, hf.bids_nonneg⟩
 
+theorem roundHalfUpNat_spec (N d : Nat) (hd : 0 < d) :
+    2 * (roundHalfUpNat N d * d) ≤ 2 * N + d ∧ 2 * N < 2 * (roundHalfUpNat N d * d) + d := by
+  unfold roundHalfUpNat
+  have hN := Nat.div_add_mod' N d
+  have hr := Nat.mod_lt N hd
+  simp only []
+  split
+  · omega
+  · rw [Nat.add_mul]
+    omega
+
+/-- `quantHalfUp k x` (x ≥ 0) is `R / 10^k` for the natural number `R` with `R − 1/2 ≤ x·10^k < R + 1/2` -/
+theorem quantHalfUp_spec (k : Nat) {x : Rat} (hx : 0 ≤ x) :
+    ∃ R : Nat, quantHalfUp k x = (R : Rat) / ((pow10 k : Nat) : Rat) ∧
+      (R : Rat) - 1 / 2 ≤ x * ((pow10 k : Nat) : Rat) ∧ x * ((pow10 k : Nat) : Rat) < (R : Rat) + 1 / 2 := by
+  unfold quantHalfUp
+  have hn : ¬ x.num < 0 := not_lt.mpr (Rat.num_nonneg.mpr hx)
+  simp only [hn, if_false]
+  have hden : (0 : Rat) < (x.den : Rat) := by exact_mod_cast x.den_pos
+  set A : Nat := x.num.natAbs with hA
+  set D : Nat := x.den with hD
+  have hxe : (A : Rat) / (D : Rat) = x := by
+    have h2 : ((A : Nat) : Rat) = ((x.num : Int) : Rat) := by
+      rw [hA, ← Int.cast_natCast, Int.natAbs_of_nonneg (Rat.num_nonneg.mpr hx)]
+    rw [h2]; exact Rat.num_div_den x
+  obtain ⟨h1, h2⟩ := roundHalfUpNat_spec (A * pow10 k) D x.den_pos
+  set R := roundHalfUpNat (A * pow10 k) D
+  have h1' : 2 * ((R : Rat) * (D : Rat)) ≤ 2 * ((A : Rat) * ((pow10 k : Nat) : Rat)) + (D : Rat) := by exact_mod_cast h1
+  have h2' : 2 * ((A : Rat) * ((pow10 k : Nat) : Rat)) < 2 * ((R : Rat) * (D : Rat)) + (D : Rat) := by exact_mod_cast h2
+  have hxP : x * ((pow10 k : Nat) : Rat) * (D : Rat) = (A : Rat) * ((pow10 k : Nat) : Rat) := by
+    rw [← hxe]; field_simp
+  refine ⟨R, by rw [Rat.mkRat_eq_div]; push_cast; rfl, ?_, ?_⟩
+  · apply le_of_not_gt; intro hc
+    have := mul_lt_mul_of_pos_right hc hden
+    nlinarith
+  · apply lt_of_not_ge; intro hc
+    have := mul_le_mul_of_nonneg_right hc hden.le
+    nlinarith
+
+theorem quantHalfUp_mono (k : Nat) {x y : Rat} (hx : 0 ≤ x) (hxy : x ≤ y) : quantHalfUp k x ≤ quantHalfUp k y := by
+  obtain ⟨R, hR, hR1, _⟩ := quantHalfUp_spec k hx
+  obtain ⟨S, hS, _, hS2⟩ := quantHalfUp_spec k (le_trans hx hxy)
+  have hp : (0 : Rat) < ((pow10 k : Nat) : Rat) := by unfold pow10; positivity
+  rw [hR, hS]
+  apply div_le_div_of_nonneg_right _ hp.le
+  have h : (R : Rat) < (S : Rat) + 1 := by
+    have := mul_le_mul_of_nonneg_right hxy hp.le
+    linarith
+  have : R < S + 1 := by exact_mod_cast h
+  exact_mod_cast Nat.lt_succ_iff.mp this
+
+/-- `round_decimal` is monotone on non-negative numbers -/
+theorem roundDec_mono (e : Int) {x y : Rat} (hx : 0 ≤ x) (hxy : x ≤ y) : roundDec e x ≤ roundDec e y := by
+  unfold roundDec
+  split
+  · exact quantHalfUp_mono _ hx hxy
+  · have ht := tenPow_pos e
+    exact mul_le_mul_of_nonneg_right
+      (quantHalfUp_mono 0 (div_nonneg hx ht.le) (div_le_div_of_nonneg_right hxy ht.le)) ht.le
+
+/-- a second grid contract (NOT in the property text either, but what an exchange's tick size gives: Deribit quotes options in
+    ticks of 0.0001 / 0.0005, multiples of the fee step): every PRICE of the book is a multiple of the fee step; the mark may
+    be anything -/
+def PricesOnGrid (c : TokenCfg) (book : List Instr) : Prop :=
+  ∀ i ∈ book, (∀ l ∈ i.asks, roundDec c.feeExp l.price = l.price) ∧ (∀ l ∈ i.bids, roundDec c.feeExp l.price = l.price)
+
+/-- with the prices on the grid the raw constraint gives the constraint of the value theorems for EVERY mark: rounding is
+    monotone and leaves the prices where they are -/
+theorem frozenOK_of_raw_prices {c : TokenCfg} {book : List Instr} (hf : FrozenRaw book) (hg : PricesOnGrid c book) :
+    FrozenOK c book :=
+  ⟨hf.inv, hf.mark_nonneg,
+    fun i hi l hl => by rw [← (hg i hi).1 l hl]; exact roundDec_mono _ (hf.mark_nonneg i hi) (hf.asks_ge i hi l hl),
+    fun i hi l hl => by rw [← (hg i hi).2 l hl]; exact roundDec_mono _ (hf.bids_nonneg i hi l hl) (hf.bids_le i hi l hl),
+    hf.bids_nonneg⟩
+
 /-- and conversely: on the grid `FrozenOK` says nothing more than the raw constraint -/
 theorem frozenRaw_of_ok {c : TokenCfg} {book : List Instr} (hf : FrozenOK c book) (hg : MarkOnGrid c book) : FrozenRaw book :=
   ⟨hf.inv, hf.mark_nonneg, fun i hi l hl => by have := hf.asks_ge i hi l hl; rwa [hg i hi] at this,
@@ -732,6 +811,19 @@ theorem C03_deribit_sequence_no_value_created_ongrid_partial (c : TokenCfg) (hc 
     (hu : ∀ o ∈ ops, o.isUser = true) (hf : FrozenRaw s.book) (hg : MarkOnGrid c s.book) (hn : NamesNodup s.book)
     (hp : PosInv s) : acctValue c (runOps DCtx.exact c s ops) ≤ acctValue c s + dustBound c s ops :=
   C03_deribit_sequence_no_value_created c hc ops s hu (frozenOK_of_raw hf hg) hn hp
+
+/-- **no sequence of operations creates value**, raw quantifier, any marks — partial: under the tick-size contract
+    `PricesOnGrid` (every book price a multiple of the fee step).  The D-8 witnesses need a price off the fee grid. -/
+theorem C03_deribit_sequence_no_value_created_pricegrid_partial (c : TokenCfg) (hc : 0 ≤ c.tradeFee) (ops : List Op) (s : DState)
+    (hu : ∀ o ∈ ops, o.isUser = true) (hf : FrozenRaw s.book) (hg : PricesOnGrid c s.book) (hn : NamesNodup s.book)
+    (hp : PosInv s) : acctValue c (runOps DCtx.exact c s ops) ≤ acctValue c s + dustBound c s ops :=
+  C03_deribit_sequence_no_value_created c hc ops s hu (frozenOK_of_raw_prices hf hg) hn hp
+
+/-- one operation (accepted or rejected), raw quantifier, any marks — partial: under `PricesOnGrid` -/
+theorem C03_deribit_step_no_value_created_pricegrid_partial (c : TokenCfg) (hc : 0 ≤ c.tradeFee) (s : DState) (op : Op)
+    (hu : op.isUser = true) (hf : FrozenRaw s.book) (hg : PricesOnGrid c s.book) (hp : PosInv s) :
+    acctValue c (step DCtx.exact c s op).2 ≤ acctValue c s + dustBound c s [op] :=
+  C03_deribit_step_no_value_created c hc s op hu (frozenOK_of_raw_prices hf hg) hp
 
 /-! ### non-vacuity -/
 
@@ -791,6 +883,25 @@ example : FrozenRaw c03State.book := by
     rcases hl with rfl | rfl <;> simp only [c03Instr] <;> norm_num
 example : MarkOnGrid ethCfg c03State.book := by
   intro i hi; simp only [c03State, List.mem_singleton] at hi; subst hi; decide +kernel
+-- a mark OFF the grid (0.0287004) between prices on the grid: raw constraint and `PricesOnGrid` hold, `MarkOnGrid` does not
+example : FrozenRaw [{ c03Instr with mark := 287004 / 10000000 }] ∧ PricesOnGrid ethCfg [{ c03Instr with mark := 287004 / 10000000 }] ∧
+    ¬ MarkOnGrid ethCfg [{ c03Instr with mark := 287004 / 10000000 }] := by
+  refine ⟨⟨?_, ?_, ?_, ?_, ?_⟩, ?_, ?_⟩
+  · intro i hi; simp only [List.mem_singleton] at hi; subst hi
+    refine ⟨?_, ?_⟩ <;>
+      (intro l hl; simp only [c03Instr, List.mem_cons, List.not_mem_nil, or_false] at hl; rcases hl with rfl | rfl <;> norm_num)
+  · intro i hi; simp only [List.mem_singleton] at hi; subst hi; norm_num
+  · intro i hi; simp only [List.mem_singleton] at hi; subst hi
+    intro l hl; simp only [c03Instr, List.mem_cons, List.not_mem_nil, or_false] at hl; rcases hl with rfl | rfl <;> norm_num
+  · intro i hi; simp only [List.mem_singleton] at hi; subst hi
+    intro l hl; simp only [c03Instr, List.mem_cons, List.not_mem_nil, or_false] at hl; rcases hl with rfl | rfl <;> norm_num
+  · intro i hi; simp only [List.mem_singleton] at hi; subst hi
+    intro l hl; simp only [c03Instr, List.mem_cons, List.not_mem_nil, or_false] at hl; rcases hl with rfl | rfl <;> norm_num
+  · intro i hi; simp only [List.mem_singleton] at hi; subst hi
+    refine ⟨?_, ?_⟩ <;>
+      (intro l hl; simp only [c03Instr, List.mem_cons, List.not_mem_nil, or_false] at hl; rcases hl with rfl | rfl <;> decide +kernel)
+  · intro h
+    exact absurd (h _ List.mem_cons_self) (by decide +kernel)
 example : BookSane c03State.book ∧ BookSane c03OffState.book := by
   refine ⟨⟨?_, ?_⟩, ⟨?_, ?_⟩⟩ <;> intro i hi <;> simp only [c03State, c03OffState, List.mem_singleton] at hi <;> subst hi
   · refine ⟨?_, ?_⟩ <;>
